@@ -479,6 +479,13 @@ C04Clauses ==
         /\ Len(dv) = 2 * cfg.nx[s1]
         /\ \A k \in 1..Len(dv) : /\ Len(dv[k]) = 2 * RNy(r) + 1
                                   /\ \A j \in 1..Len(dv[k]) : Excused(r, s1, k, j) \/ (dv[k][j] # NANV /\ dv[k][j] <= 500), "pairs")     \* 5e-6 m
+  \* ... and it is ONE curve through all radial segments of the region: where a segment ends, the next one starts (same poloidal index,
+  \* same point of the shared flux surface)
+  /\ ClauseAt("SameIntegralCurveAcrossSegments", \A r \in 1..NR(T) : \A s1 \in 1..(NSeg(T) - 1) :
+        LET e == Obs.c04[IdOf(r, s1) + 1] IN
+        /\ e.outer = IdOf(r, s1 + 1)
+        /\ Len(e.xj) = 2 * RNy(r) + 1
+        /\ \A j \in 1..Len(e.xj) : e.xj[j] # NANV /\ e.xj[j] <= 500, "joins")
   /\ ClauseAt("RadialParallelToGradPsi", \A x \in XS : \A y \in YS : TouchesX(x, y) \/ (Obs.sinc[x + 1][y + 1] # NANV /\ Obs.sinc[x + 1][y + 1] <= 60000), "cells")
   /\ ClauseAt("RadialParallelToGradPsi", \A x \in XS : \A y \in YS : AdjXRow(y) \/ (Obs.sinc[x + 1][y + 1] # NANV /\ Obs.sinc[x + 1][y + 1] <= 10000), "awayX")
 
